@@ -449,7 +449,7 @@ func scribble(p []byte) {
 }
 
 func subWriteSide() mon.Sub {
-	apis := []string{"WriteMessage-client", "WriteClientText", "WriteClientBinary", "Writer.Write-client", "Writer.WriteThrough-client", "Writer.ReadFrom-client", "Writer.Write-server", "CipherWriter.Write", "MaskFrame", "MaskFrameWith", "UnmaskFrame", "GetWriter-client"}
+	apis := []string{"WriteMessage-client", "WriteClientText", "WriteClientBinary", "Writer.Write-client", "Writer.WriteThrough-client", "Writer.WriteThrough-server", "WriteMessage-server", "Writer.ReadFrom-client", "Writer.Write-server", "CipherWriter.Write", "MaskFrame", "MaskFrameWith", "UnmaskFrame", "GetWriter-client"}
 	return mon.Sub{
 		Name: "write-side", Exhaustive: true, Required: true,
 		N: func(t string) int { return len(apis) * len(sizes) * 3 },
@@ -504,8 +504,14 @@ func subWriteSide() mon.Sub {
 				}
 				p = append([]byte(nil), orig...) // already scribbled piecewise
 				reuse = false
-			case "Writer.WriteThrough-client":
-				w := wsutil.NewWriterSize(dst, ws.StateClientSide, ws.OpBinary, 64)
+			case "WriteMessage-server":
+				err = wsutil.WriteServerMessage(dst, ws.OpBinary, p)
+			case "Writer.WriteThrough-client", "Writer.WriteThrough-server":
+				wst := ws.StateClientSide
+				if api == "Writer.WriteThrough-server" {
+					wst = ws.StateServerSide
+				}
+				w := wsutil.NewWriterSize(dst, wst, ws.OpBinary, 64)
 				_, err = w.WriteThrough(p)
 				if err == nil {
 					if !bytes.Equal(p, orig) {
